@@ -215,6 +215,11 @@ func TestC14(t *testing.T) {
 			if c.U.LoaderNil {
 				c.U.Docs = nil
 			}
+			if rapid.Bool().Draw(t, "rootschema") && c.U.Root.K == jv.Obj {
+				// a root that declares $schema: Loader documents without one inherit its draft, which
+				// must not be done by writing into them
+				c.U.Root.O = append([]jv.Member{{K: "$schema", V: jv.StrV(refmodel.URI2020)}}, c.U.Root.O...)
+			}
 			for _, r := range c.U.Routes {
 				if len(c.Instances) < 3 {
 					c.Instances = append(c.Instances, ugen.Instance(r.Path, r.Intended))
